@@ -43,6 +43,7 @@ def main():
     ap.add_argument("--inrepo", action="store_true")
     ap.add_argument("--tier", default="quick")
     a = ap.parse_args()
+    a.src = os.path.abspath(a.src)
     checks = (a.checks or a.pid).split(",")
     patch = os.path.join(a.src, "patch.diff")
     demo = os.path.join(a.src, "demo.py")
@@ -113,7 +114,7 @@ def main():
         dest = os.path.join(VERIF, "seeded", a.seed_id)
         os.makedirs(dest, exist_ok=True)
         for fn in ("patch.diff", "demo.py", "notes.txt"):
-            if os.path.exists(os.path.join(a.src, fn)):
+            if os.path.exists(os.path.join(a.src, fn)) and os.path.abspath(a.src) != os.path.abspath(dest):
                 shutil.copy(os.path.join(a.src, fn), os.path.join(dest, fn))
         with open(os.path.join(dest, "meta.json"), "w") as f:
             json.dump(meta, f, indent=1)
